@@ -186,7 +186,11 @@ func panicSite(stack string) string {
 // finalClose is the C12 oracle, evaluated after the drain (both ends closed
 // by the harness, DrainTime of virtual time passed).
 func finalClose(w *World, x *vrt.Exec) {
-	const bound = 10 * time.Second // FIN timeout (1s) + 3 boosted resend timeouts + slack
+	// Close signals every wait of the connection (quit, the queue's quit, the
+	// cancelled context), so apart from the FIN send (at most the 1 s FIN
+	// timeout; the harness transport never blocks) it has nothing to wait
+	// for: it must not sit out a resend interval or a sync wait.
+	const bound = 1500 * time.Millisecond
 	drainAt := x.Elapsed - w.sc.Cfg.DrainTime
 	for _, e := range []*Endpoint{w.C, w.S} {
 		var firstCloseReturn time.Duration = -1
